@@ -466,7 +466,7 @@ pub fn run(tier: Tier) -> i32 {
     let coll = Collector::new();
     // A
     let net_inputs = AtomicU64::new(0);
-    let max_l = tier.pick(16usize, 22usize);
+    let max_l = tier.pick(18usize, 22usize);
     let mut net_jobs: Vec<(usize, bool, usize, usize)> = vec![];
     for l in 1..=max_l {
         let n_chunks = if l <= 12 { 1 } else { 1usize << (l - 12) };
@@ -526,7 +526,7 @@ pub fn run(tier: Tier) -> i32 {
     }
     // C
     let bc = BuiltinCnt { programs: AtomicU64::new(0), evals: AtomicU64::new(0), with_matches: AtomicU64::new(0), with_dups: AtomicU64::new(0) };
-    let max_b = tier.pick(5usize, 7usize);
+    let max_b = tier.pick(6usize, 7usize);
     let mut bjobs = vec![];
     for n in 1..=max_b {
         for m in 1..=max_b {
